@@ -4,7 +4,7 @@ import os
 
 ROOT = os.path.dirname(os.path.dirname(os.path.abspath(__file__)))
 EXEC_NOTE = ("Trusted: TLC; CPython's ast; the syntactic text->HF-IR converter (harness/hfir.py); the reference reading of the "
-             "HiFiber API (assumptions A1-A10, DESIGN 7.2, calibrated on the 19 golden programs and the pinned partitioning texts); "
+             "HiFiber API (assumptions A1-A10, DESIGN 7.2; double precision = CPython floats, calibrated on the 19 golden programs and the pinned partitioning texts); "
              "bounded extents and input space; library details that are not certain are variants and only violations under all variants are reported.")
 CHECKS = {
     "C01": ("HFMachine.tla run by TLC on every emitted program x bounded inputs, judged against EinsumSem.tla (OutputCorrect, OutputRestored, no run-time error); "
@@ -13,35 +13,35 @@ CHECKS = {
             "output must equal the unpartitioned Einsum's oracle under its declared name, rank order and coordinates", "5 C02", EXEC_NOTE),
     "C03": ("same machine; occupancy stacks with every leader, flatten tuples (+ occupancy of the flattened rank), accelerator specifications with the architecture stripped; "
             "nearly dense inputs included; splitNonUniform's unspecified case is a variant", "5 C03", EXEC_NOTE),
-    "C04": ("same machine over exact rationals; affine accesses (convolution/stride/dilation/subsampling) x loop orders x partitioned output rank with follower; "
-            "clauses OutputCorrect and WithinExtent", "5 C04", EXEC_NOTE),
+    "C04": ("same machine over exact rationals plus IEEE facts (the points where a projection lambda misses an integer in double precision, computed by CPython and attached to the lambda); "
+            "affine accesses (convolution/stride/dilation/subsampling, negative coefficients, masked convolutions, followers through fractional coefficients) x loop orders x partitioned output rank with follower; clauses OutputCorrect and WithinExtent", "5 C04", EXEC_NOTE),
     "C05": ("same machine on cascades of 2-4 Einsums against the chained oracle (EinsumSem!Cascade) with NamesTruthful; per-Einsum segment independence and the shared-tensor protocol are "
-            "trace-validated (SessionTrace / TensorIRTrace) once the hook exists", "5 C05", EXEC_NOTE),
+            "trace-validated (TensorIRTrace.tla on hook events, Independence.tla on the statements of each Einsum compiled after every prefix)", "5 C05", EXEC_NOTE),
     "C06": ("CPython's parser for 'is Python' + Scope.tla: all-paths definite assignment and loop-variable scoping explored exhaustively by TLC for every emitted program of all families "
             "in plain, spacetime and metrics mode; user-supplied names derived from the specification alone", "3.5, 5 C06",
             "Trusted: TLC, CPython ast, the syntactic converter; loops abstracted to zero/one iteration (binding is monotone)."),
-    "C07": ("HFMachine invariants NamesTruthful, InputsUnchanged, OutputRestored and the 'update writes into an input' guard on the union of the C01-C05 families", "5 C07", EXEC_NOTE),
+    "C07": ("HFMachine invariants NamesTruthful, InputsUnchanged, OutputRestored and run-time errors on the union of the C01-C05 families; partitioning cores compiled in fresh interpreters under several hash seeds and injected orders (every distinct text is run)", "5 C07", EXEC_NOTE),
     "C11": ("every specification compiled with and without architecture/bindings/format; both programs run on HFMachine (inert Metrics/Traffic/Format/Compute/Intersector stand-ins) on the same inputs and must equal the oracle", "5 C11", EXEC_NOTE),
     "C12": ("MetricsProtocol.tla monitor advanced by HFMachine (concrete runs) and by Scope.tla (every path) over metrics-mode programs", "3.6, 5 C12",
             "Trusted: TLC, the converter; the monitor reads only literal arguments of the emitted calls. 'Fed inside the loops' is read as: fed during collection, not before the loop nest starts (the compiler feeds at the close of the intersected rank's loop)."),
     "C14": ("RollUp.tla evaluated on the metrics dictionary built by the emitted dump on HFMachine with prime-valued stand-ins varying per statement and input; component facts (kind, rate, instances) from an independent reader of the architecture YAML", "3.6, 5 C14",
             EXEC_NOTE + " Instance count = the count of the level that holds the component."),
-    "C16": ("HFMachine observers (activities vs updates in lock-step, point arity, stamps unique per canvas) + oracle equality of the programs with and without spacetime", "5 C16", EXEC_NOTE),
+    "C16": ("HFMachine observers (activities vs updates in lock-step, point arity, stamps unique per canvas) + oracle equality of the programs with and without spacetime + every stamped specification must still compile when the mapping is added", "5 C16", EXEC_NOTE),
     "C08": ("each specification compiled in fresh interpreters under N string-hash seeds and under injected random linear extensions of every flow graph (env-guarded hook); every distinct text is judged by Scope.tla and run on HFMachine.tla against the same oracle on the same inputs; determinism in one process by a two-compile history validated by SessionTrace.tla", "5 C08",
             EXEC_NOTE + " 'All seeds' is a sample of seeds plus a superset of sort tie-breaks."),
     "C09": ("TreeEq.tla compares, statement by statement, the tree the translator built with CPython's parse of the printed text (Printer!Canon), requires Printer!Faithful, on every compilation of the corpora and on affine expressions through CoordAccess.build_expr; PrinterGen.tla enumerates all operator trees of depth <= 2 which are printed by the real classes and re-parsed, binding the TLA+ precedence table to CPython and the printer", "3.10, 5 C09",
             "Trusted: TLC, CPython ast, the two structural converters (harness/treeir.py, harness/hfir.py)."),
-    "C10": ("Hoist.tla: transcription of FlowGraph.__sort (any linear extension) and __hoist + order invariants, on flow graphs exported through the public IR API; conformance of the real __hoist on its own orders, on injected random linear extensions and on linear extensions chosen by TLC", "3.8, 5 C10",
+    "C10": ("Hoist.tla: transcription of FlowGraph.__sort (any linear extension) and __hoist + order invariants, on flow graphs exported through the public IR API; conformance of the real __hoist on its own orders, on injected random linear extensions and on linear extensions chosen by TLC; every text emitted under those orders is judged by Scope.tla (a name read before it is bound = a dependence missing from the graph) and a specification that compiles under one admissible order and fails under another is reported", "3.8, 5 C10",
             "Trusted: TLC; dependences are the edges of the flow graph the compiler builds; the env-guarded hook only logs / substitutes the pre-hoist order."),
-    "C13": ("Fusion.tla model-checked exhaustively (OrderedPartition, NonEmptyBlocks, BlockLegal, AppendOnly); its behaviours are stepped through real Program/Hardware/Fusion objects and the recorded traces validated by FusionTrace.tla; metrics[\"blocks\"] literals of whole compilations judged by the invariants", "3.7, 5 C13",
+    "C13": ("Fusion.tla model-checked exhaustively (OrderedPartition, NonEmptyBlocks, BlockLegal, AppendOnly); its behaviours (components of kinds compute / sequencer / intersector) are stepped through real Program/Hardware/Fusion objects and the recorded traces validated by FusionTrace.tla; metrics[\"blocks\"] literals of whole compilations judged by the invariants", "3.7, 5 C13",
             "Trusted: TLC; descriptors (config, loop order, space list, bound components) are read from the generating history, not from the compiler."),
-    "C15": ("Session.tla (NoMutation, Repeatable) model-checked; its parse/compile histories replayed with the real parsers and HiFiber(...) inside one interpreter; deep digests of the five parsed objects and of the text validated by SessionTrace.tla", "3.9, 5 C15",
+    "C15": ("Session.tla (NoMutation, Repeatable) model-checked; its parse/compile histories replayed with the real parsers and HiFiber(...), a dozen histories per interpreter; each interpreter's whole event sequence (deep digests of the five parsed objects and of the text) is one trace, started by reference events from fresh interpreters, validated by SessionTrace.tla", "3.9, 5 C15",
             "Trusted: TLC; 'observably equal' = equal deep structural rendering of the objects' attributes."),
     "C17": ("Syntax.tla enumerates the bounded language of the five grammars (adversarial names, spacing styles) with the structure each sentence was rendered from, and near-misses; real parser classes + independent extractor; SyntaxTrace.tla compares", "3.10, 5 C17",
             "Trusted: TLC; the extractor is a plain walk of the lark tree; near-misses carry a written argument for non-membership (decimal numbers are not used: lark's NUMBER accepts them)."),
     "C18": ("Legality.tla applies each of the 15 stated rules at every site of its base specifications; real parsers + HiFiber(...); LegalityTrace.tla: Compiled => Legal and the rejection is a ValueError; legal bases/neighbours guard against vacuity", "5 C18",
             "Trusted: TLC; the renderer of abstract specifications to YAML."),
-    "C19": ("SpecSpace.tla enumerates/samples Einsums x partitionings and computes DefaultLoopOrder / declared rank order; compiled with sections omitted vs written out; Defaults.tla requires identical outcomes", "3.10, 5 C19",
+    "C19": ("SpecSpace.tla enumerates/samples Einsums x partitionings (shape / occupancy stacks, flattening) and computes DefaultLoopOrder / declared rank order; compiled with sections omitted vs written out; Defaults.tla requires identical outcomes", "3.10, 5 C19",
             "Trusted: TLC; the renderer; outcomes compared as digests of the emitted text."),
 
 }
